@@ -514,6 +514,7 @@ def rule_parallel(repo: Repo, rep: Report) -> int:
 
 def rule_branching(repo: Repo, rep: Report) -> int:
     fi = repo.func(BR, "BranchingModel.forward")
+    ci = repo.cls(BR, "BranchingModel")
     set_parents(fi.node)
     loops = [s for s in fi.body if isinstance(s, ast.For)]
     if len(loops) != 1:
@@ -549,7 +550,50 @@ def rule_branching(repo: Repo, rep: Report) -> int:
                 roots.add(unparse(c))
     negated = isinstance(ri.test, ast.UnaryOp) and isinstance(ri.test.op, ast.Not)
     ok = (roots == {f"{cond_name}(x)"} or match(ri.test, f"{cond_name}(x)") is not None) and not negated
-    rep.check(ok, "FIRST-MATCH", fi, f"branch taken when: {unparse(ri.test)} <- {sorted(roots)}", "taken iff this branch's own condition holds on the input", "the branch is not selected by its own condition evaluated on the input", node=ri)
+    wrong_sel = negated
+    if not ok and not negated:
+        # the test may reach the condition through truthiness-preserving wrappers: bool(..), .item(), named temporaries
+        # and helper methods of the class whose every return is bool(<its argument>[.item()])
+        def truthy_helper(name: str) -> bool:
+            h = ci.find_method(name) if ci is not None else None
+            if h is None:
+                return False
+            ps = [p_ for p_ in h.params if p_ not in ("self", "cls")]
+            rets_ = [r_ for r_ in ast.walk(h.node) if isinstance(r_, ast.Return)]
+            return len(ps) == 1 and bool(rets_) and all(r_.value is not None and (match(r_.value, f"bool({ps[0]})") is not None or match(r_.value, f"bool({ps[0]}.item())") is not None) for r_ in rets_)
+
+        def unwrap(e: ast.AST, depth: int = 0):
+            """-> ('cond', arg) | ('neg', ..) | None"""
+            if depth > 6:
+                return None
+            if isinstance(e, ast.Call) and isinstance(e.func, ast.Name) and e.func.id == cond_name:
+                return ("cond", e)
+            if isinstance(e, ast.Call) and isinstance(e.func, ast.Name) and e.func.id == "bool" and len(e.args) == 1:
+                return unwrap(e.args[0], depth + 1)
+            if isinstance(e, ast.Call) and isinstance(e.func, ast.Attribute) and e.func.attr == "item" and not e.args:
+                return unwrap(e.func.value, depth + 1)
+            if isinstance(e, ast.Call) and isinstance(e.func, ast.Attribute) and attr_chain(e.func.value) in ("self", "cls", type(None)) and len(e.args) == 1 and truthy_helper(e.func.attr):
+                return unwrap(e.args[0], depth + 1)
+            if isinstance(e, ast.UnaryOp) and isinstance(e.op, ast.Not):
+                r_ = unwrap(e.operand, depth + 1)
+                return ("neg", r_) if r_ else None
+            if isinstance(e, ast.Name):
+                ds = [s_.value for s_ in cond_defs if s_.targets[0].id == e.id]
+                rs = [unwrap(d_, depth + 1) for d_ in ds]
+                if rs and all(r_ is not None and r_[0] == "cond" for r_ in rs):
+                    return rs[0]
+            return None
+
+        u = unwrap(ri.test)
+        if u is not None and u[0] == "cond":
+            call = u[1]
+            if len(call.args) >= 1 and isinstance(call.args[0], ast.Name) and call.args[0].id == "x":
+                ok = True
+            else:
+                wrong_sel = True
+        elif u is not None and u[0] == "neg":
+            wrong_sel = True
+    rep.shape(ok, wrong_sel, "FIRST-MATCH", fi, f"branch taken when: {unparse(ri.test)} <- {sorted(roots)}", "taken iff this branch's own condition holds on the input", "the branch is not selected by its own condition evaluated on the input", node=ri)
     n += 1
     calls = [c for c in ast.walk(ri) if isinstance(c, ast.Call) and isinstance(c.func, ast.Name) and c.func.id == model_name]
     okc = len(calls) == 1 and calls[0].args and isinstance(calls[0].args[0], ast.Name) and calls[0].args[0].id == "x" and any(isinstance(a, ast.Starred) for a in calls[0].args) and any(k.arg is None for k in calls[0].keywords)
